@@ -26,6 +26,15 @@ def size_bound_ms(rec):
     return int(20000 + 0.05 * len(P["tasks"]) * P["N"])
 
 
+def scaled_bound_ms(rec, job, wall_of):
+    """A project with a statement written 2k times may cost 8 x what the one with k costs (cubic growth would still pass;
+    0.5 s floor for noise) -- and never more than the size bound."""
+    b = size_bound_ms(rec)
+    if job.get("pair") and job["pair"] in wall_of:
+        b = min(b, int(8000 * max(wall_of[job["pair"]], 0.5)))
+    return b
+
+
 def _effort_days(text):
     """Largest effort written in the text, in working days (the scheduler extends the horizon to make it fit)."""
     import re
@@ -65,7 +74,7 @@ def check(prop, tier, replay=None):
                        "beyond the end, deadlines before the start, resources on leave for the whole horizon, zero / huge efforts, no allocation, "
                        "group allocations, ALAP; (b) corrupted variants of generated texts and of the repository fixtures: token deletion / duplication / "
                        "swap, truncation, brace damage, absurd numbers and dates, keyword substitution, undefined and recursive macros; "
-                       "each run must return within 20 s + 50 us x tasks x horizon slots (hard cap 90 s quick / 400 s thorough); non-trivial = distinct text whose outcome is not plain success")
+                       "(c) one statement kind (vacation, leaves, booking, hours, limits, flags, dependencies, allocations, nesting, scenarios, reports, macros) written k and 2k times: the larger costs at most 8 x the smaller; each run must return within 20 s + 50 us x tasks x horizon slots (hard cap 90 s quick / 400 s thorough); non-trivial = distinct text whose outcome is not plain success")
     run.assumptions = ["a text is 'accepted' iff ProjectFileParser.parse(text, schedule=False) returns", "bound proportional to size is a wall-clock budget, not a complexity proof"]
     rng = random.Random(run.seed * 7 + 11)
     n_inf = 60 if tier == "quick" else 1500
@@ -78,6 +87,11 @@ def check(prop, tier, replay=None):
         jobs.append({"id": "C11-" + pid, "text": p.render(), "scenarios": [0]})
     for pid, p in gen.wide_groups(rng, 4 if tier == "quick" else 40):
         jobs.append({"id": "C11-" + pid, "text": p.render(), "scenarios": [0]})
+    # one statement kind written k and 2k times in one property: the cost of the larger project is bounded by the smaller one's
+    for k in ((11,) if tier == "quick" else (11, 12)):
+        for kk in (k, 2 * k):
+            for kind, text in gen.repeated_statements(kk):
+                jobs.append({"id": "C11-rep-%s-k%d" % (kind, kk), "text": text, "scenarios": [0], "pair": "C11-rep-%s-k%d" % (kind, k) if kk != k else None})
     seeds = []
     for name in ("dags", "limits_profile", "calendars", "teams_alts"):
         seeds += [("gen-" + pid, p.render()) for pid, p in getattr(gen, name)(rng, 3 if tier == "quick" else 25)]
@@ -110,6 +124,7 @@ def check(prop, tier, replay=None):
         recs = e1.run_impl(scr, jobs, nproc=14, timeout=3000)
         by_id = {j["id"]: j for j in jobs}
         rows = []
+        wall_of = {r["id"].split("#sc")[0]: r.get("wall", 0) for r in recs}
         for r in recs:
             jid = r["id"].split("#sc")[0]
             job = by_id[jid]
@@ -136,7 +151,7 @@ def check(prop, tier, replay=None):
                             in_h = False
             rows.append({"id": r["id"], "status": r["status"], "accepted": r["status"] != "rejected",
                          "nevents": len(r.get("events", [])) if r["status"] != "rejected" else int(r.get("nevents", 0)),
-                         "wall_ms": int(r.get("wall", 0) * 1000), "limit_ms": size_bound_ms(r),
+                         "wall_ms": int(r.get("wall", 0) * 1000), "limit_ms": scaled_bound_ms(r, job, wall_of),
                          "leafs": len(leafs), "sched": sched, "warned": bool(r.get("warns")), "inHorizon": in_h,
                          "mustReject": gen.cannot_be_grammatical(job["text"])})
         verdicts, res = decide_outcomes(rows)
